@@ -15,6 +15,7 @@ from pyvc.values import (
     SObj, Sym, Unsupported, kind_of, to_term,
 )
 
+from pyvc.values import ModuleRef
 from .common import install_common
 
 NP = "joblib/numpy_pickle.py"
@@ -148,6 +149,23 @@ def build():
             "framing_is_lenbyte_then_ff_padding": "implies(self.numpy_array_alignment_bytes is not None, ev(0)[0] == 'write' and len(ev(0)[1]) == 1 and ev(1)[0] == 'write' and len(ev(1)[1]) == pad_written())",
             "elements_in_the_wrapper_order": "ev_named('nditer')[0][1] == self.order",
         },
+        loops={1: Loop(
+            "for chunk in pickler.np.nditer(array, flags=['external_loop', 'buffered', 'zerosize_ok'], buffersize=buffersize, order=self.order)",
+            invariant={"written_so_far": "POS == DATA_START + psum(CHUNKS, 'nbytes', _i)"},
+            havoc=["ghost:POS"],
+        )},
+    ))
+
+    # dtypes of item size 0 exist (np.dtype([]), 'S0', 'V0'): known finding K9
+    def wsetup0(interp, env):
+        g = interp.ctx.ghost
+        interp.ctx.assume(z3.And(ops.as_int_term(g["POS"]) >= 0, ops.as_int_term(g["NBYTES"]) >= 0, ops.as_int_term(env.lookup("array").attrs["itemsize"]) >= 0))
+
+    p.add(Contract(
+        NP, "NumpyArrayWrapper.write_array", variant="any-item-size", props=["C19"], ghost=GH, setup=wsetup0,
+        inline={"safe_get_numpy_array_alignment_bytes"},
+        params=dict(self=WR, array=array(), pickler=pickler()),
+        ensures={},
         loops={1: Loop(
             "for chunk in pickler.np.nditer(array, flags=['external_loop', 'buffered', 'zerosize_ok'], buffersize=buffersize, order=self.order)",
             invariant={"written_so_far": "POS == DATA_START + psum(CHUNKS, 'nbytes', _i)"},
@@ -290,16 +308,52 @@ def build():
     ))
 
     # ---- read: memmap only when allowed and requested
+    ND0 = ClassRef("ndarray")
     p.models["NumpyArrayWrapper.read_mmap"] = lambda i, r, a, k: (i.ctx.events.append(("read_mmap",)), Opaque("memmap", None))[1]
     p.models["NumpyArrayWrapper.read_array"] = lambda i, r, a, k: (i.ctx.events.append(("read_array", a[1])), Opaque("outarray", None))[1]
     p.add(Contract(
         NP, "NumpyArrayWrapper.read", props=["C19"],
-        params=dict(self=RD(), unpickler=lambda i: Opaque("unpicklerobj", None, mmap_mode=OneOf(None, "r").fresh(i.ctx, "mm"), np=Opaque("np", None, ndarray=ClassRef("ndarray"), memmap=ClassRef("memmap"))), ensure_native_byte_order=False),
+        params=dict(self=lambda i: (lambda o: (o.fields.__setitem__("subclass", ND0), o)[1])(RD().fresh(i.ctx, "self")), unpickler=lambda i: Opaque("unpicklerobj", None, mmap_mode=OneOf(None, "r").fresh(i.ctx, "mm"), np=Opaque("np", None, ndarray=ND0, memmap=ClassRef("memmap"))), ensure_native_byte_order=False),
         ensures={},
         ensures_body={"memmap_iff_requested_and_allowed": "(n_events('read_mmap') == 1) == (unpickler.mmap_mode is not None and (self.allow_mmap is True or self.allow_mmap == True)) if False else "
                                                           "n_events('read_mmap') + n_events('read_array') == 1",
                       "no_memmap_without_request": "implies(unpickler.mmap_mode is None, n_events('read_mmap') == 0)"},
     ))
+
+    # ---- read: the array class of the dumped object comes back (ndarray, memmap, or the one other class the pickler wraps: np.matrix),
+    # whether or not numpy still has __array_prepare__ (removed in numpy 2)
+    ND, MM, MX = ClassRef("ndarray"), ClassRef("memmap"), ClassRef("matrix")
+
+    def read_result(tag):
+        def h(i, r, a, k):
+            i.ctx.events.append((tag,) + tuple(a[1:2]))
+            o = Opaque("outarray", None, hasattr={"__array_prepare__": bool(i.ctx.choose(2, "numpy-has-__array_prepare__"))})
+            i.ctx.ghost["READ"] = o
+            return o
+        return h
+
+    def rd_self(interp):
+        o = RD().fresh(interp.ctx, "self")
+        o.fields["subclass"] = (ND, MM, MX)[interp.ctx.choose(3, "dumped-class")]
+        return o
+
+    p.models["outarray.view"] = lambda i, r, a, k: Opaque("viewed", None, cls=a[0], of=r)
+    p.models["np.core.multiarray._reconstruct"] = lambda i, a, k: Opaque("reconstructed", None, cls=a[0])
+    p.models["reconstructed.__array_prepare__"] = lambda i, r, a, k: Opaque("viewed", None, cls=r.attrs["cls"], of=a[0])
+    p.spec_funcs["plain"] = lambda interp, c: c is ND or c is MM
+    p.spec_funcs["class_of"] = lambda interp, o: o.attrs.get("cls") if isinstance(o, Opaque) else None
+    p.spec_funcs["what_was_read"] = lambda interp: interp.ctx.ghost.get("READ")
+    p.add(Contract(
+        NP, "NumpyArrayWrapper.read", variant="array-class", props=["C19"],
+        calls={"self.read_mmap": lambda i, a, k: read_result("read_mmap")(i, None, [None] + list(a), k),
+               "self.read_array": lambda i, a, k: read_result("read_array")(i, None, [None] + list(a), k)},
+        params=dict(self=rd_self, unpickler=lambda i: Opaque("unpicklerobj", None, mmap_mode=OneOf(None, "r").fresh(i.ctx, "mm"),
+                                                             np=Opaque("np", None, ndarray=ND, memmap=MM, core=Opaque("npcore", None, multiarray=Opaque("npmultiarray", None)))),
+                    ensure_native_byte_order=False),
+        ensures={"other_array_classes_are_restored": "implies(not plain(self.subclass), class_of(result) is self.subclass and result.of is what_was_read())",
+                 "plain_arrays_come_back_as_read": "implies(plain(self.subclass), result is what_was_read())"},
+    ))
+    p.models["npmultiarray._reconstruct"] = lambda i, r, a, k: Opaque("reconstructed", None, cls=a[0])
 
     # ---- NumpyPickler._create_array_wrapper: order flag, allow_mmap
     def new_wrapper(interp, args, kwargs):
@@ -359,4 +413,138 @@ def build():
             ensures={"never_converts_an_array_with_a_native_field": "implies(native_field(array, HOST), not result)",
                      "converts_wholly_foreign_arrays": "implies(foreign_only(array, HOST), result)"},
         ))
+    # ---- views on a memmap handed to worker processes (_memmapping_reducer._reduce_memmap_backed -> _strided_from_memmap).
+    # Shape-bounded: 2-d views (symbolic shape, strides of either sign, item size, positions).  numpy is assumed: element (i, j) of
+    # a view lives at data + i*strides[0] + j*strides[1]; C/F contiguity flags as numpy defines them (relaxed for length-1 axes);
+    # byte_bounds = [lowest element address, highest element address + itemsize); make_memmap(shape, order, offset) lays elements
+    # out in C or Fortran order from `offset`; as_strided(base, shape, strides) addresses from the start of `base`.
+    MR = "joblib/_memmapping_reducer.py"
+
+    def view2d(interp):
+        ctx = interp.ctx
+        n0, n1, s0, s1, sz, ptr = (INT.fresh(ctx, x) for x in ("n0", "n1", "s0", "s1", "itemsize", "data"))
+        t = lambda v: v.term
+        ctx.assume(z3.And(t(n0) >= 1, t(n1) >= 1, t(sz) >= 1, t(ptr) >= 0, t(s0) != 0, t(s1) != 0))
+        # domain restriction (stated in the evidence): strides are multiples of the item size - no field views of structured memmaps
+        k0, k1 = z3.Int(ctx.fresh_name("k0")), z3.Int(ctx.fresh_name("k1"))
+        ctx.assume(z3.And(t(s0) == k0 * t(sz), t(s1) == k1 * t(sz)))
+        ctx.ghost["K01"] = (k0, k1)
+        cc = z3.And(z3.Or(t(n1) == 1, t(s1) == t(sz)), z3.Or(t(n0) == 1, t(s0) == t(n1) * t(sz)))
+        fc = z3.And(z3.Or(t(n0) == 1, t(s0) == t(sz)), z3.Or(t(n1) == 1, t(s1) == t(n0) * t(sz)))
+        flags = Opaque("npflags", None, C_CONTIGUOUS=Sym(BOOL, cc), F_CONTIGUOUS=Sym(BOOL, fc))
+        return Opaque("ndview", None, shape=(n0, n1), strides=(s0, s1), itemsize=sz, data=ptr, flags=flags, dtype=Opaque("dtype", None))
+
+    def backing(interp):
+        ctx = interp.ctx
+        st, off = INT.fresh(ctx, "m_start"), INT.fresh(ctx, "m_offset")
+        ctx.assume(z3.And(st.term >= 0, off.term >= 0))
+        return Opaque("npmemmap", None, start=st, offset=off, filename=STR.fresh(ctx, "filename"), mode=OneOf("r", "r+", "c", "w+").fresh(ctx, "mode"),
+                      flags=Opaque("npflags", None, F_CONTIGUOUS=BOOL.fresh(ctx, "m_fortran"), C_CONTIGUOUS=BOOL.fresh(ctx, "m_c")))
+
+    p.models["getitem:npflags"] = lambda interp, recv, key: recv.attrs[key]
+    Opaque_tag_getitem = True
+
+    def byte_bounds(interp, args, kwargs):
+        v = args[0]
+        if v.tag == "npmemmap":
+            return (v.attrs["start"], INT.fresh(interp.ctx, "m_end"))
+        (n0, n1), (s0, s1) = v.attrs["shape"], v.attrs["strides"]
+        ext0, ext1 = (n0.term - 1) * s0.term, (n1.term - 1) * s1.term
+        lo = v.attrs["data"].term + z3.If(ext0 < 0, ext0, 0) + z3.If(ext1 < 0, ext1, 0)
+        hi = v.attrs["data"].term + z3.If(ext0 > 0, ext0, 0) + z3.If(ext1 > 0, ext1, 0) + v.attrs["itemsize"].term
+        return (Sym(INT, lo), Sym(INT, hi))
+
+    p.models["numpy.lib.array_utils.byte_bounds"] = byte_bounds
+    p.models["numpy.byte_bounds"] = byte_bounds
+    p.models["os.getpid"] = lambda i, a, k: 1
+    p.log_calls.update({"util.debug"})
+    p.models["Str.format"] = lambda i, r, a, k: STR.fresh(i.ctx, "msg")
+
+    def file_pos_original(interp, a, m, i, j):
+        t = ops.as_int_term
+        return Sym(INT, t(m.attrs["offset"]) + (t(a.attrs["data"]) + t(i) * t(a.attrs["strides"][0]) + t(j) * t(a.attrs["strides"][1]) - t(m.attrs["start"])))
+
+    def by_value(interp, result):
+        return isinstance(result[0], Opaque) and result[0].tag == "fn_loads"
+
+    p.spec_funcs["by_value"] = by_value
+    p.models["numpy.asarray"] = lambda i, a, k: a[0]
+    p.models["np.asarray"] = lambda i, a, k: a[0]
+
+    def dumps_model(interp):
+        def h(i, a, k):
+            i.ctx.events.append(("dumps", a[0]))
+            return Opaque("pickled", None, of=a[0])
+        return _FnC(h)
+
+    def file_pos_rebuilt(interp, result, i, j):
+        t = ops.as_int_term
+        fn, args = result
+        filename, dtype, mode, offset, order, shape, strides, total, unlink = args
+        i, j = t(i), t(j)
+        if strides is None:
+            n0, n1 = t(shape[0]), t(shape[1])
+            sz = t(interp.ctx.ghost["A"].attrs["itemsize"])
+            idx = (i * n1 + j) if order == "C" else (i + j * n0)
+            return Sym(INT, t(offset) + idx * sz)
+        return Sym(INT, t(offset) + i * t(strides[0]) + j * t(strides[1]))
+
+    def inside_mapping(interp, result, i, j):
+        t = ops.as_int_term
+        filename, dtype, mode, offset, order, shape, strides, total, unlink = result[1]
+        if strides is None:
+            return True
+        pos = t(file_pos_rebuilt(interp, result, i, j))
+        a = interp.ctx.ghost["A"]
+        sz = t(a.attrs["itemsize"])
+        # stepping stones for the nonlinear arithmetic (each one is an obligation of its own, then available as a fact)
+        (n0, n1), (s0, s1) = [t(x) for x in a.attrs["shape"]], [t(x) for x in a.attrs["strides"]]
+        q = z3.Int(interp.ctx.fresh_name("q"))
+        extent = (n0 - 1) * s0 + (n1 - 1) * s1 + sz
+        ck = lambda nm, f: interp.ctx.check("%s/lemma.%s" % (interp.contract.qualname, nm), f, detail="stepping stone (nonlinear arithmetic)")
+        if s0 is not t(strides[0]) and not z3.eq(s0, t(strides[0])):
+            return ops.mk_bool(z3.And(pos >= t(offset), pos + sz <= t(offset) + t(total) * sz))
+        ck("products-of-non-negatives", z3.Implies(z3.And(s0 > 0, s1 > 0), z3.And((n0 - 1 - t(i)) * s0 >= 0, (n1 - 1 - t(j)) * s1 >= 0, t(i) * s0 >= 0, t(j) * s1 >= 0)))
+        k0, k1 = interp.ctx.ghost["K01"]
+        qx = k0 * (n0 - 1) + k1 * (n1 - 1) + 1
+        ck("extent-is-a-multiple-of-the-item-size", extent == qx * sz)
+        r = z3.Int(interp.ctx.fresh_name("r"))
+        # Euclid: extent = total*sz + r with 0 <= r < sz (definition of //), and extent = qx*sz  ==>  (qx - total)*sz = r  ==>  qx = total
+        ck("floor-division-is-exact", z3.Implies(z3.And(s0 > 0, s1 > 0), z3.And(extent - t(total) * sz >= 0, extent - t(total) * sz < sz)))
+        ck("quotient-is-unique", z3.Implies(z3.And(s0 > 0, s1 > 0), z3.Or(qx - t(total) <= 0, (qx - t(total)) * sz >= sz)))
+        ck("quotient-is-unique-2", z3.Implies(z3.And(s0 > 0, s1 > 0), z3.Or(qx - t(total) >= 0, (qx - t(total)) * sz <= -sz)))
+        ck("buffer-length-times-item-size-is-the-extent", z3.Implies(z3.And(s0 > 0, s1 > 0), t(total) * sz == extent))
+        return ops.mk_bool(z3.And(pos >= t(offset), pos + sz <= t(offset) + t(total) * sz))
+
+    p.spec_funcs["file_pos_original"] = file_pos_original
+    p.spec_funcs["file_pos_rebuilt"] = file_pos_rebuilt
+    p.spec_funcs["inside_mapping"] = inside_mapping
+    p.spec_funcs["same_shape"] = lambda interp, result, a: ops.mk_bool(z3.And(ops.as_int_term(result[1][5][0]) == a.attrs["shape"][0].term,
+                                                                             ops.as_int_term(result[1][5][1]) == a.attrs["shape"][1].term))
+
+    def rmb_setup(interp, env):
+        g = interp.ctx.ghost
+        a = env.lookup("a")
+        g["A"] = a
+        interp.ctx.assume(z3.And(g["I"].term >= 0, g["I"].term < a.attrs["shape"][0].term, g["J"].term >= 0, g["J"].term < a.attrs["shape"][1].term))
+        # the view lies inside its backing memmap
+        lo, _hi = byte_bounds(interp, [a], {})
+        interp.ctx.assume(lo.term >= env.lookup("m").attrs["start"].term)
+
+    def _FnC(fn):
+        return Opaque("fn", None, fn=fn)
+
+    p.models["fn.__call__"] = lambda interp, fv, args, kwargs: fv.attrs["fn"](interp, args, kwargs)
+    mglob = {"_strided_from_memmap": lambda interp: Opaque("fn_strided_from_memmap", None), "util": lambda interp: Opaque("utilmod", None),
+             "loads": lambda interp: Opaque("fn_loads", None), "dumps": dumps_model, "HIGHEST_PROTOCOL": 5, "np": lambda interp: ModuleRef("np")}
+    p.add(Contract(
+        MR, "_reduce_memmap_backed", props=["C19"], ghost=dict(I=INT, J=INT), globals=mglob, setup=rmb_setup,
+        params=dict(a=view2d, m=backing),
+        ensures={"rebuilds_with_the_same_shape": "by_value(result) or same_shape(result, a)",
+                 "every_element_is_read_from_the_same_file_position": "by_value(result) or file_pos_rebuilt(result, I, J) == file_pos_original(a, m, I, J)",
+                 "never_reads_outside_the_mapped_buffer": "by_value(result) or inside_mapping(result, I, J)",
+                 "by_value_sends_this_very_array": "implies(by_value(result), result[1][0].of is a)",
+                 # a copy-on-write memmap may hold modifications that are not in the file: re-opening the file loses them (known finding K10)
+                 "copy_on_write_memmaps_are_not_reopened_from_the_file": "implies(m.mode == 'c', by_value(result))"},
+    ))
     return p
